@@ -158,6 +158,62 @@ def trace_loglik(particle_num, x):
     return float(-0.5 * np.sum(((x - 0.8) / 0.2) ** 2))
 
 
+class SerialPool:
+    """stands in for multiprocessing.Pool so that the workflow runs in the harness process (where MCMC_MH is wrapped)"""
+    def __init__(self, *a, **k):
+        pass
+
+    def starmap(self, f, it):
+        return [f(*args) for args in it]
+
+    def close(self):
+        pass
+
+
+def workflows(chk, T, rng):
+    """(D) both public workflows, run serially: every Metropolis-Hastings kernel must be started from a state whose stored
+    log-likelihood and tempered log-posterior are those of that state at the exponent it is given"""
+    import multiprocessing
+    real_pool, real_mh = multiprocessing.Pool, T.MCMC_MH
+    for wf in ("run_tmcmc_updated", "run_tmcmc"):
+        for it in range(1 if chk.tier == "quick" else 4):
+            specs = [{"family": "Uniform", "lower": -1.0, "upper": 3.0}, {"family": "Normal", "mu": 0.5, "sig": 1.0}][: 1 + (it % 2)] if it < 2 else [gen_prior(rng) for _ in range(rng.choice([1, 2]))]
+            pars = [mk_prior(sp) for sp in specs]
+            N = 60
+            entries = []
+
+            def mh(j, Em, Nm, cur, lik, post, beta, na, all_pars, ll):
+                entries.append((np.array(cur, float).copy(), float(lik), float(post), float(beta)))
+                return real_mh(j, Em, Nm, cur, lik, post, beta, na, all_pars, ll)
+            site = f"workflow:{wf}"
+            replay = {"kind": "oracle", "workflow": wf, "priors": specs, "N": N, "loglik": "-0.5 * sum(((x - 0.8) / 0.2) ** 2)", "pool": "serial stand-in for multiprocessing.Pool"}
+            chk.count("workflow-" + wf, key=(wf, str(specs), it))
+            np.random.seed(rng.randint(0, 2 ** 31 - 1))
+            multiprocessing.Pool, T.MCMC_MH = SerialPool, mh
+            try:
+                with tempfile.TemporaryDirectory(prefix="c19_") as tmp:
+                    trace = getattr(T, wf)(N, pars, trace_loglik, os.path.join(tmp, "status.txt"), 2, 2)
+            except Exception as ex:
+                chk.report(site, f"{wf} fails: {type(ex).__name__}: {str(ex)[:80]}", replay)
+                continue
+            finally:
+                multiprocessing.Pool, T.MCMC_MH = real_pool, real_mh
+            worst = None
+            for cur, lik, post, beta in entries:
+                L = trace_loglik(0, cur)
+                pr_ = sum(own_log_prior(sp, float(x)) for sp, x in zip(specs, np.atleast_1d(cur)))
+                want = pr_ + beta * L
+                tol = 1e-8 * max(1.0, abs(want), abs(L))
+                if abs(lik - L) > tol:
+                    worst = worst or f"stored log-likelihood {lik!r} of the start state {cur.tolist()} is not its log-likelihood {L!r}"
+                elif math.isfinite(want) and abs(post - want) > tol:
+                    worst = worst or (f"the kernel for exponent {beta!r} is started from {cur.tolist()} with tempered log-posterior {post!r}, but log prior + exponent * log likelihood "
+                                      f"of that state is {want!r} (difference {post - want:.6g})")
+            chk.count("workflow-mh-entries", n=len(entries), nontrivial=False)
+            if worst:
+                chk.report(site + ":mh-entry", worst, replay)
+
+
 def body(chk):
     from pyuncertainnumber.calibration import tmcmc as T
     pr = chk.do_proofs()
@@ -400,6 +456,8 @@ def body(chk):
                 chk.report(site + ":support", f"stage {si} of the trace has {len(bad)} particle coordinates outside the prior support (e.g. {bad[0][0]} for the "
                            f"{specs[bad[0][1]]['family']} prior with support {list(sup[bad[0][1]])})", replay)
                 break
+
+    workflows(chk, T, rng)
 
     chunks = []
     for s in range(0, len(bitems), 30):
